@@ -81,10 +81,17 @@ func VH_C07_ExecuteScripts() {
 	vunwindCut(vparam("U", 8))
 	ls := bscript.Script(vnondetBytes("ls", 0, vparam("L", 1)))
 	us := bscript.Script(vnondetBytes("us", 0, vparam("LU", 0)))
+	if len(us) == 0 && vnondetBool("us-one") {
+		us = bscript.Script{bscript.Op1} // something for the locking script to work on
+	}
 	flagsets := []scriptflag.Flag{0, scriptflag.UTXOAfterGenesis, scriptflag.Bip16 | scriptflag.VerifyCleanStack | scriptflag.VerifyMinimalData | scriptflag.VerifyMinimalIf | scriptflag.DiscourageUpgradableNops | scriptflag.VerifyCheckLockTimeVerify | scriptflag.VerifyCheckSequenceVerify,
 		scriptflag.UTXOAfterGenesis | scriptflag.Bip16 | scriptflag.VerifyMinimalData | scriptflag.VerifySigPushOnly | scriptflag.EnableSighashForkID | scriptflag.VerifyCheckLockTimeVerify}
 	flags := flagsets[vnondetLen("flagset", 0, len(flagsets)-1)]
-	err := NewEngine().Execute(WithScripts(&ls, &us), WithFlags(flags))
+	opts := []ExecutionOptionFunc{WithScripts(&ls, &us), WithFlags(flags)}
+	if vparam("DBG", 1) == 1 && vnondetBool("with-debugger") {
+		opts = append(opts, WithDebugger(&vDbg{})) // a recording debugger: every callback takes a snapshot
+	}
+	err := NewEngine().Execute(opts...)
 	if err == nil {
 		vreach("scripts-ok")
 	} else {
